@@ -168,8 +168,10 @@ Definition buffer_spec (inp out : list event) : bool :=
   (* zero-time records are not reordered *)
   recs_eqb (filter (fun r => negb (nonzero_time r)) (records out)) (filter (fun r => negb (nonzero_time r)) (records inp)) &&
   (* watermarks forwarded unchanged; at each of them exactly the records it covers have been released *)
-  forallb2 (fun i o => (snd i =? snd o) && perm_recs (fst o) (filter (released_by (snd i)) (fst i)))
-           (at_wms [] inp) (at_wms [] out) &&
+  zlist_eqb (watermarks out) (watermarks inp) &&
+  (negb (monotone inp) ||
+   forallb2 (fun i o => (snd i =? snd o) && perm_recs (fst o) (filter (released_by (snd i)) (fst i)))
+            (at_wms [] inp) (at_wms [] out)) &&
   (* with no late input: the timed records leave in event-time order, ties in arrival order *)
   (negb (well_timed inp) ||
    recs_eqb (filter nonzero_time (records out)) (et_sort (filter nonzero_time (records inp)))).
